@@ -95,6 +95,31 @@ def _is_zero(x):
         return x == 0
 
 
+def h_delta_sequences(ctx):
+    """QTT delta vectors / matrices built for the same positions at several
+    quantisation levels in one process, levels going up and then down: every call
+    gives v at its position only (no state carried between calls)."""
+    v = ctx.real('v')
+    ok = []
+    for q in (2, 4, 3, 2, 1, 3):
+        N = 1 << q
+        for i in (5 % N, N - 1, -1, -N + 1 if N > 1 else 0, 3 % N):
+            Y = teneva.vector_delta(q, i, v)
+            F = ref_full(Y).reshape(-1, order='F')
+            pos = i if i >= 0 else N + i
+            ok.append(ctx.all_([ctx.eq(F[j], v if j == pos else 0) for j in range(N)]))
+    ctx.claim('vector_delta_independent_of_earlier_calls', ctx.all_(ok))
+    ok = []
+    for q in (3, 2, 1, 2):
+        N = 1 << q
+        for (i, j) in ((N - 1, 1 % N), (-1, -N), (2 % N, N - 1)):
+            Y = teneva.matrix_delta(q, i, j, v)
+            M = teneva.full_matrix(Y)
+            pi, pj = (i if i >= 0 else N + i), (j if j >= 0 else N + j)
+            ok.append(ctx.all_([ctx.eq(M[a, b], v if (a, b) == (pi, pj) else 0) for a in range(N) for b in range(N)]))
+    ctx.claim('matrix_delta_independent_of_earlier_calls', ctx.all_(ok))
+
+
 def h_vector_delta_range(ctx, q):
     i = ctx.integer('i')
     N = 1 << q
@@ -228,6 +253,7 @@ def instances(tier):
     for n, i in [([2, 3], [1, 2]), ([2, 3], [-1, 0]), ([2, 2, 3], [0, -1, -2]), ([1, 2], [0, 1])]:
         out.append({'func': 'h_delta', 'params': {'n': n, 'i': i}})
     out.append({'func': 'h_delta_array_reuse', 'params': {}})
+    out.append({'func': 'h_delta_sequences', 'params': {}})
     for n, zl, keep in [([3, 3, 3], [[1, 1, 0], [1, 1, 2]], [1, 1, 1]), ([2, 3], [[1, 0], [0, 2]], [1, 2]), ([2, 2], [[0, 1]], [1, 1])]:
         out.append({'func': 'h_const', 'params': {'n': n, 'zeros_': zl, 'keep': keep, 'as_arrays': True}})
     # several listed zeros that agree with the protected index in many modes (satisfiable requests)
